@@ -14,7 +14,9 @@ pub mod c11;
 pub mod c12;
 pub mod setcommon;
 pub mod c13;
+pub mod c13_types;
 pub mod c14;
+pub mod c14_tokens;
 pub mod c15;
 pub mod c16;
 pub mod c17;
